@@ -470,4 +470,15 @@ def run(ctx: Ctx, tier: str) -> Result:
                          "(pending spans / captures of the other thread are skipped or completed late)" % (attr, sf.name)))
     if not shared_:
         res.ok("C15.THREAD", {"ThreadLocal keeps no cross-thread state besides its store": True})
+    # every callback of a closing event is run: the list of callbacks (and the per-thread queue) is not changed by the loop that
+    # walks it - removing the finished callback makes the iterator skip the one after it (its span is never closed)
+    from .common import mutated_while_walked
+    scope_m = [f_ for f_ in p.functions.values() if f_.module.name in ("deep.processor.context.callback_context", "deep.processor.trigger_handler",
+                                                                       "deep.processor.context.trigger_context", "deep.processor.context.span_action")]
+    mw = mutated_while_walked(ctx, scope_m)
+    for f_, lp_, c_ in mw[:3]:
+        res.fail(Finding("C15.ONCE", f_.qname, c_, f_.loc(c_), "`%s` changes the collection the loop `for %s in %s` is walking: the element after the current one is skipped - of two "
+                         "callbacks due at one event only one is completed" % (norm(c_)[:50], norm(lp_.target), norm(lp_.iter)[:40])))
+    if not mw:
+        res.ok("C15.ONCE", {"no loop over callbacks / results changes what it walks": len(scope_m)})
     return res
